@@ -343,7 +343,53 @@ PREFIXES = [[], ["load", "tick"], ["load", "tick", "rewrite", "tick"], ["load", 
             ["load", "rewrite-same-tick", "load", "rewrite"]]
 
 
+def object_before_edit(ctx, count):
+    """history with the OBJECT in it: a FastaIndex is constructed while FASTA and cache are consistent, the FASTA is then edited (newer
+    time stamp, as any editor gives), and only then auto_load() is called on that object — it must fail loudly or describe the CURRENT
+    content (observed at FastaIndex.index / .assembly), exactly like an object constructed after the edit"""
+    import os
+    from tola.fasta.index import FastaIndex
+    rng = ctx.rng
+    with F.Scratch() as sc:
+        for i in range(count):
+            def content(k):
+                recs = [f">r{j}_{k}\n" + "".join(rng.choice("ACGTN") for _ in range(rng.randint(5, 90))) + "\n" for j in range(rng.randint(1, 3))]
+                return "".join(recs).encode()
+            p = sc.path / f"obe{i}.fa"
+            old, new = content(0), content(1)
+            p.write_bytes(old); os.utime(p, (1000, 1000))
+            inp = {"old_fasta": old.decode(), "new_fasta": new.decode(), "history": None}
+            objs = []
+            try:
+                f0 = FastaIndex(p); f0.auto_load(); objs.append(f0)
+                os.utime(f0.fai_file, (1500, 1500)); os.utime(f0.agp_file, (1500, 1500))
+                hist = rng.choice(["construct, edit, auto_load", "construct, auto_load, edit, auto_load again on the same object"])
+                inp["history"] = hist
+                f1 = FastaIndex(p); objs.append(f1)
+                if hist.startswith("construct, auto_load"):
+                    f1.auto_load()
+                p.write_bytes(new); os.utime(p, (2000, 2000))
+                f1.auto_load()
+                ref = FastaIndex(p); objs.append(ref)
+                ref.auto_load()
+                got = ([[k, v.length, v.file_offset, v.residues_per_line, v.max_line_length] for k, v in f1.index.items()], [s_.name for s_ in f1.assembly.scaffolds])
+                want = ([[k, v.length, v.file_offset, v.residues_per_line, v.max_line_length] for k, v in ref.index.items()], [s_.name for s_ in ref.assembly.scaffolds])
+                ctx.out.case("object-before-edit", inp, ("obe", hist[:20]))
+                names_now = [l[1:].split()[0] for l in new.decode().splitlines() if l.startswith(">")]
+                if got != want or [r[0] for r in got[0]] != names_now:
+                    ctx.out.oracle_fail("object-before-edit", inp, "auto_load() on an object constructed before the FASTA was edited silently yields the OLD content's index/assembly")
+            except Exception as e:
+                ctx.out.case("object-before-edit", inp, ("obe", "raised"))      # failing loudly is allowed
+            finally:
+                for o in objs:
+                    try:
+                        o.fasta_fileandle.close()
+                    except Exception:
+                        pass
+
+
 def run(ctx):
+    object_before_edit(ctx, 200 if ctx.thorough else 30)
     rng, out = ctx.rng, ctx.out
     ctx_driver[0] = ctx.driver
     with F.Scratch() as sc:
